@@ -48,6 +48,11 @@ def run(ctx, R, tier):
         R.add("C13-R7", "handleRequest|client-set-before-user-code", "current_context.client is this request's connection before _getInstance / dispatch can run user code "
               "(track_resource files a resource under current_context.client: set too late, the resource is closed with another connection or never)", o.ok, o.loc, o.detail)
 
+    # a connection that was accepted is served (and then cleaned up) at all only if the worker it was handed to is not lost: the worker-loop obligations of C05-R2 / C18-R4
+    # (slot cleared before the worker is handed back, the event protocol, handed back only while alive) are part of "every connection is cleaned up"
+    from .c05 import worker_loop_rules
+    worker_loop_rules(ctx, R, "C13-R1")
+
     # ---------------------------------------------------------------- R1
     f = ctx.fn("Pyro5.svr_threads.ClientConnectionJob.__call__")
     cfg = ctx.cfg(f)
